@@ -80,7 +80,9 @@ const (
 	refFile            // after ignore/file
 )
 
-func (s refState) String() string { return [...]string{"normal", "next-line", "in-begin", "after-file"}[s] }
+func (s refState) String() string {
+	return [...]string{"normal", "next-line", "in-begin", "after-file"}[s]
+}
 
 // step returns whether the whole line is excluded content, whether only the text before its comment is
 // excluded (ignore/line), and the next reference state.
@@ -242,7 +244,10 @@ var (
 	gen *config.PrometheusGenerator
 )
 
-func setup(string) {
+var tier string
+
+func setup(t string) {
+	tier = t
 	cfg = pipeline.DefaultConfig()
 	gen = pipeline.Generator(cfg)
 }
@@ -326,10 +331,11 @@ var forms = []string{"next-line", "line", "begin-end-1", "begin-end-2", "file"}
 
 // e2e: a file is a sequence of blocks; every excluded position takes two payloads.
 func e2e(c *explore.Chooser) *explore.Case {
-	n := 1 + c.Free(3, "blocks")
-	if n > 3 {
-		n = 3
+	maxBlocks, maxExcluded := 3, 1
+	if tier == "thorough" {
+		maxBlocks, maxExcluded = 4, 2
 	}
+	n := 1 + c.Free(maxBlocks, "blocks")
 	var partsA, partsB, partsNone []string
 	var desc []string
 	nrules := 0
@@ -346,20 +352,23 @@ func e2e(c *explore.Chooser) *explore.Case {
 			desc = append(desc, "rule")
 			continue
 		}
-		if excluded > 0 {
-			return &explore.Case{Skip: true} // one excluded block per file keeps the with/without comparison simple
+		if excluded >= maxExcluded {
+			return &explore.Case{Skip: true} // quick: one excluded block per file; thorough: two (A/B comparison only)
 		}
 		excluded++
+		second := excluded == 2
 		form := forms[kind-1]
 		pick := func(tag string, inline bool) (string, string) {
+			l := payloads
 			if inline {
-				a := c.Free(len(inlinePayloads), tag+".A")
-				b := c.Free(len(inlinePayloads), tag+".B")
-				return inlinePayloads[a], inlinePayloads[b]
+				l = inlinePayloads
 			}
-			a := c.Free(len(payloads), tag+".A")
-			b := c.Free(len(payloads), tag+".B")
-			return payloads[a], payloads[b]
+			a := c.Free(len(l), tag+".A")
+			if second { // the second excluded block of a file pairs every payload with its successor only
+				return l[a], l[(a+1)%len(l)]
+			}
+			b := c.Free(len(l), tag+".B")
+			return l[a], l[b]
 		}
 		var a, b string
 		switch form {
@@ -383,8 +392,16 @@ func e2e(c *explore.Chooser) *explore.Case {
 			if strings.Contains(pa, "ignore/end") || strings.Contains(pb, "ignore/end") {
 				return &explore.Case{Skip: true}
 			}
-			a = "# pint ignore/begin\n" + pa + "\n{% endfor %}\n# pint ignore/end\n"
-			b = "# pint ignore/begin\n" + pb + "\n{% endfor %}\n# pint ignore/end\n"
+			qa, qb := "{% endfor %}", "{% endfor %}"
+			if tier == "thorough" && !second { // thorough: the second line varies too (successor pairing)
+				k := c.Free(len(payloads), fmt.Sprintf("b%d.l2", i))
+				qa, qb = payloads[k], payloads[(k+1)%len(payloads)]
+				if strings.Contains(qa, "ignore/end") || strings.Contains(qb, "ignore/end") {
+					return &explore.Case{Skip: true}
+				}
+			}
+			a = "# pint ignore/begin\n" + pa + "\n" + qa + "\n# pint ignore/end\n"
+			b = "# pint ignore/begin\n" + pb + "\n" + qb + "\n# pint ignore/end\n"
 		case "file":
 			if i != n-1 {
 				return &explore.Case{Skip: true}
@@ -393,7 +410,7 @@ func e2e(c *explore.Chooser) *explore.Case {
 			a = "# pint ignore/file\n" + pa + "\n"
 			b = "# pint ignore/file\n" + pb + "\n"
 		}
-		if a == b {
+		if a == b && !second {
 			return &explore.Case{Skip: true}
 		}
 		partsA, partsB = append(partsA, a), append(partsB, b)
@@ -426,7 +443,7 @@ func e2e(c *explore.Chooser) *explore.Case {
 		cs.Violate("e2e: payload influences result form="+form, "two excluded payloads of equal line count give different rules/positions/problems", map[string]any{"input": input, "result_A": oa, "result_B": ob})
 	}
 	cs.Outcome = fmt.Sprintf("%s rules=%d reports=%d", form, len(oa.Rules), len(oa.Reports))
-	if form != "file" {
+	if form != "file" && excluded == 1 {
 		on, _ := observe(fnone, shiftFrom, shift)
 		if fmt.Sprint(oa) != fmt.Sprint(on) {
 			cs.Violate("e2e: inserting an excluded block changes more than line numbers form="+form, "file with the excluded block differs from the file without it beyond the line shift", map[string]any{"input": input, "with_block": oa, "without_block_shifted": on, "file_without": fnone})
@@ -438,7 +455,7 @@ func e2e(c *explore.Chooser) *explore.Case {
 func main() {
 	explore.Main(&explore.Config{
 		Property: "C10", Level: "model_checking",
-		Rule: "(a) explicit-state BFS to closure over (real ContentReader masking state (skipAll,skipNext,autoReset,inBegin), reference exclusion state) x 32 line classes (every pint comment type incl. invalid/unknown, at offset 0 and after text, plus plain text/comment/empty): every transition checked for non-interference (excluded line fully blanked, same next masking state as any other excluded text, nothing recorded, line structure kept); (b) all files of <=3 blocks (rule | one excluded block in each of 5 forms) x all ordered pairs of 16 payload classes (4 for the inline form): parse+lint of payload A vs payload B, and vs the file without the block shifted by its line count",
+		Rule: "(a) explicit-state BFS to closure over (real ContentReader masking state (skipAll,skipNext,autoReset,inBegin), reference exclusion state) x 32 line classes (every pint comment type incl. invalid/unknown, at offset 0 and after text, plus plain text/comment/empty): every transition checked for non-interference (excluded line fully blanked, same next masking state as any other excluded text, nothing recorded, line structure kept); (b) all files of <=3 blocks (rule | one excluded block in each of 5 forms) x all ordered pairs of 16 payload classes (4 for the inline form): parse+lint of payload A vs payload B, and vs the file without the block shifted by its line count; thorough: <=4 blocks, up to two excluded blocks per file (the second pairs each payload with its successor), the second line of the two-line begin/end form varies too",
 		Assumptions: []string{
 			"reference exclusion semantics from docs/ignoring.md: ignore/line excludes the text before the comment, ignore/next-line the whole next line, begin/end the lines strictly between, ignore/file everything after",
 			"traces_validated_against_impl: the model IS driven through the real ContentReader (every transition replays the shortest path on a fresh reader), so every explored transition is an implementation trace",
@@ -447,7 +464,12 @@ func main() {
 			{Name: "machine", Body: machine, Bound: func(string) int { return -1 }},
 			{Name: "e2e", Body: e2e, Setup: setup, Bound: func(string) int { return -1 }},
 		},
-		BudgetS: func(t string) int { return 600 },
+		BudgetS: func(t string) int {
+			if t == "thorough" {
+				return 1800
+			}
+			return 600
+		},
 		Extra: func(tier string, agg *explore.Aggregate) map[string]any {
 			return map[string]any{"traces_validated_against_impl": agg.Stats["transitions"]}
 		},
